@@ -184,7 +184,7 @@ PLANS["C17"] = {
              "environments; oracle = in-process library verdict on the same files; sign-artifacts runs with good and unusable key files; "
              "non-trivial = both an expected acceptance and an expected rejection were executed"),
     "assumptions": [ASSUME_SAMPLE, "a standard output that cannot be written at all is out of scope (the property requires a report and a status)",
-                    "gpg-sign / gpg-key-lookup need securesystemslib, which is not installed: their exit status is exercised in the C10 real-GnuPG leg"],
+                    "gpg-sign / gpg-key-lookup run as real processes with a stand-in securesystemslib package on PYTHONPATH (harness packet parser in front of the real gpg binary) and, in 20% of those runs, without it"],
     "components": {"real": PROC_REAL, "stub": ["document factory (chain world)"]},
 }
 PLANS["C17"]["must_probe"] = {"all": ["entry_script", "entry_pkg", "entry_climod", "cli_expected_accept", "cli_expected_reject"]}
